@@ -632,8 +632,8 @@ func TestC40(t *testing.T) {
 	})
 	defer fasthttp.VerifSetPointHook(nil)
 
-	nSeq := r.N(500, 20_000)
-	nBurst := r.N(50, 1500)
+	nSeq := r.N(500, 12_000)
+	nBurst := r.N(50, 1000)
 	nExp := r.N(1, 6)
 	// case index space: [0,nSeq) sequential, [nSeq,nSeq+nBurst) bursts, then expiry waits
 
@@ -722,7 +722,7 @@ func TestC40(t *testing.T) {
 		r.Event("bursts", 1)
 	})
 	// membership change during a parked selection scan
-	nPark := r.N(400, 20_000)
+	nPark := r.N(400, 4_000)
 	parkBase := nSeq + nBurst + nExp + 1 + 20_000
 	mon.Parallel(nPark, 0, func(k int) {
 		if r.Want(parkBase + k) {
@@ -730,7 +730,7 @@ func TestC40(t *testing.T) {
 		}
 	})
 	// near-cap rounds run on their own: their spinning goroutines need the cores
-	nNear := r.N(500, 4_000)
+	nNear := r.N(300, 1_500)
 	runNearCap(r, nSeq+nBurst+nExp+1, nNear)
 	bg.Wait()
 	r.Event("lb_chosen_points", int(chosen.Load()))
@@ -745,8 +745,8 @@ func TestC40(t *testing.T) {
 		r.Require("expiry_waits", nExp+1)
 		r.Require("lb_chosen_points", nSeq*20)
 		r.Require("parked_scans", nPark*9/10)
-		r.Require("overflow_quiet_checks", ovN*8/10)
-		r.Require("overflow_recovered_choice_checks", 3)
+		r.Require("overflow_quiet_checks", ovN/2)
+		r.Require("overflow_recovered_choice_checks", 1)
 		r.Require("nearcap_rounds", nNear*9/10)
 		r.Require("nearcap_rounds_barrier_complete", nNear/2)
 	}
